@@ -132,6 +132,18 @@ def run_shard(spec, M):
                     j = next((x for x, (a, b) in enumerate(zip(got, R.kinds)) if a != b), min(len(got), len(R.kinds)))
                     M.violation("C18.kinds", {"what": "kind of a delivered line differs from the kind the renderer wrote", "line": j + 1,
                                               "got": got[j:j + 3], "want": R.kinds[j:j + 3]}, case)
+            elif o.status in ("errors", "single") and o.log is not None and doccheck.generator_sound(R):
+                # a well-formed document was rejected (another property's business) — but the tokens delivered BEFORE the
+                # first reported line must still carry the kinds of their lines
+                first_err = min([e["line"] for e in o.errors if isinstance(e.get("line"), int)] or [0])
+                M.count("rejected_wellformed_documents_compared")
+                for ln, k in o.log.builds:
+                    if ln == "EOF" or ln >= first_err:
+                        break
+                    if k != R.kinds[ln - 1]:
+                        M.violation("C18.kinds", {"what": "token delivered for a line carries another kind than the line has (the document is then rejected further down)",
+                                                  "line": ln, "got": k, "want": R.kinds[ln - 1], "first_error": o.err_messages()[:1]}, case)
+                        break
     elif fam == "noisy":
         for i in range(spec["start"], spec["start"] + spec["n"]):
             r = rng(spec["seed"], ID, "noisy", i)
